@@ -102,7 +102,8 @@ def run_case(fam, impl, rng, rec, uni, vals, i):
         n = rng.choice([0, 1, 2, rng.randint(0, len(uni))])
         keys = rng.sample(uni, min(n, len(uni)))
         kind = rng.choice(setops.CONTAINER_KINDS)
-        c, v = setops.make_container(fam, kind, impl, keys, vals, rng)
+        c, v = setops.make_container(fam, kind, impl, keys, vals, rng,
+                                         pool=uni)
         return c, keys, (v if kind in ('Bucket', 'BTree') else None), kind
     a, ka, va, kinda = operand()
     b, kb, vb, kindb = operand()
@@ -214,7 +215,8 @@ def run_case(fam, impl, rng, rec, uni, vals, i):
                           observed=brief(got, 300), expected=brief(want, 300),
                           **d)
             return
-    if setops.snapshot(a) != snap_a or setops.snapshot(b) != snap_b:
+    if not eq(setops.snapshot(a), snap_a) or \
+            not eq(setops.snapshot(b), snap_b):
         rec.violation('operand-modified', **d)
         return
     if i % 173 == 0:
